@@ -24,7 +24,7 @@ func init() {
 		Title: "Arrays keep the length invariant; Array methods follow ES5 15.4",
 		Rule: "a case is one call (receiver, method, argument list, callback script) executed on a fresh real receiver; compared with the 15.4.4.x algorithm run over the model object: " +
 			"thrown class, return value (deep), receiver afterwards (every own property with value and attributes, so partial effects before a TypeError count), callback/getter/setter log, " +
-			"and the length invariant evaluated on the real array. Trivial = the call throws TypeError by construction before anything is touched (non-callable callback).",
+			"and the length invariant evaluated on the real array. elemproto: the call runs in an environment where one toLocaleString/toString/valueOf of String/Number/Boolean/Object/Array.prototype is replaced by a logging function, made non-callable or deleted, over receivers of every element kind; outcome, returned string and the log of element-method calls (function, this class and value, order) are compared. Trivial = the call throws TypeError by construction before anything is touched (non-callable callback).",
 		Families: []engine.Family{
 			// cheap families first: when the time budget runs out the large enumerations are the ones cut short
 			{Name: "ctor", Run: runCtor},
@@ -35,6 +35,7 @@ func init() {
 			{Name: "steporder", Run: runStepOrder},
 			{Name: "primitives", Run: runPrimitives},
 			{Name: "poison", Run: runPoison},
+			{Name: "elemproto", Run: runElemProto},
 			{Name: "attrs", Run: runAttrs},
 			{Name: "stack", Run: runStack},
 			{Name: "access", Run: runAccess},
